@@ -5,6 +5,21 @@ from .prog import canon
 from . import pan
 
 
+def emptiness_facts(facts):
+    """`x.len() == 0` / `!= 0` / `> 0` / `0 < x.len()` are the same tests as `x.is_empty()`."""
+    import re as _re
+    out = []
+    for f in facts:
+        if f[0] in ("Eq", "Ne", "Gt", "Le", "Lt", "Ge") and f[2] == "0":
+            m = _re.fullmatch(r"(Vec|\[T\]|String|str|HashMap|HashSet)::len\((.*)\)", f[1])
+            if m:
+                empty = {"Eq": True, "Le": True, "Ne": False, "Gt": False}.get(f[0])
+                if empty is not None:
+                    kind = "Vec" if m.group(1) in ("Vec", "[T]") else m.group(1)
+                    out.append(("call", "%s::is_empty" % kind, (m.group(2),), empty))
+    return out
+
+
 class PathInfo:
     def __init__(self, P, b, path):
         self.P = P
@@ -121,6 +136,7 @@ class PathInfo:
                     out.append((op, args[1], args[0]))
                 else:
                     out.append(("call", nm, args, truth))
+        out.extend(emptiness_facts(out))
         return out
 
     def calls(self):
